@@ -30,6 +30,8 @@ def A(text, ref):
 CHECKS.update({
  'C17': A("Euler convention of mat_from_rph against the textbook body->NED matrix and the images of the body axes, proper rotation, round trip through mat_to_rph, both branches of the kernel's mat_from_rotvec (path fork on the norm threshold; trig branch characterised as exp([v x]); Taylor branch within 1e-18 by alternating-series enclosures), _phi_to_delta_rph as the eps^1 coefficient of the Euler angles under a platform rotation, stacked = single.", "DESIGN.md 5/C17"),
  'C16': A("Closed-form ellipsoid and normal offset, NED frame orthonormal with columns = partial derivatives of ECEF position divided by the principal radii (eps-jets through the real lla_to_ecef / principal_radii / mat_en_from_ll), first-order agreement of perturb_lla / compute_lla_difference / lla_to_ned with that geometry, curvature matrix = rotation of the NED frame under displacement, gravity = compiled copy = gravity_n = gravitation_ecef minus centrifugal term, rate_n, parity in latitude, stacked = scalar; proved with symbolic ellipsoid and gravity constants; structure of the Olson inverse (longitude exact, z-mirror, stacked = single) by path exploration of its masked assignments. The accuracy of the Olson inverse is stated as outside.", "DESIGN.md 5/C16"),
+ 'C07': A("The real kalman.correct on fully symbolic x, P=P^T, z, H, R=R^T (R positive definite, P positive semidefinite as preconditions): posterior mean and covariance equal x + P H^T S^-1 (z - Hx) and P - P H^T S^-1 H P, symmetric, information form, P - P+ and P+ positive semidefinite (n <= 2), innovation = residual whitened by the LOWER Cholesky factor, two independent blocks in either order = joint update, inputs not written. Rational identities that nlsat cannot decide are reduced exactly to polynomial identities by multiplying out the reciprocals. Dimensions <= 3x2 / 5x1; all conditioning claims are outside.", "DESIGN.md 5/C07"),
+ 'C08': A("The real kalman.compute_process_matrices on symbolic F, symmetric Q and a formal time step, expm replaced by its defining series (exact in the truncated algebra): coefficientwise through dt^K the transition matrix is exp(F dt), the noise matrix is the series of the integral of the propagated noise density, symmetric, zero for a zero step; with two formal steps the composition law Phi(s+t) = Phi(t)Phi(s), Qd(s+t) = Phi(t)Qd(s)Phi(t)^T + Qd(t). n <= 3 (quick) / 4 (thorough), K <= 6.", "DESIGN.md 5/C08"),
 })
 
 NA = {
